@@ -98,6 +98,39 @@ def _dispatch(repo, rep):
         rep.check(n_interp >= 1, "R06.1", f.qualname,
                   "%s can interpolate" % name, construct="can-interp:" + name,
                   where=L.where(f))
+        # the converse: literal emission only for a stated reason -- the
+        # switch is off / no '${' in the text, or one of the comment opt-outs
+        for conds, leaf in _leaves(v):
+            if any(isinstance(w, A.NodeV) and w.kind == "Interpolation"
+                   for w in A.walk(leaf)):
+                continue
+            reasons = []
+            unknown = []
+            for t, b in conds:
+                if reasons:
+                    break       # what follows only shapes the literal text
+                if "self._interpolation[-1]" in t and "'${'" in t:
+                    if not _live([(t, b)]):
+                        reasons.append("switch off or no ${")
+                    continue
+                if name == "visit_comment" and (
+                        "startswith('<!--!')" in t or
+                        "startswith('<!--?')" in t or
+                        "enable_comment_interpolation" in t):
+                    if (b and "startswith" in t) or (
+                            "enable_comment_interpolation" in t and
+                            L.cond_holds([(t, b)],
+                                         "self.enable_comment_interpolation",
+                                         False, contains=True)):
+                        reasons.append("comment opt-out")
+                    continue
+                unknown.append((t, b))
+            rep.check(bool(reasons) and not unknown, "R06.1", f.qualname,
+                      "%s emits its text literally only because the switch "
+                      "is off, the text has no '${', or (comments) an opt-out "
+                      "applies -- under no other condition" % name,
+                      construct="literal-reason:" + name, where=L.where(f),
+                      detail="conditions %s" % (conds,))
     # comment opt-outs
     f = repo.func(PROG + "visit_comment")
     v = L.emission(repo, f.qualname).value
@@ -376,6 +409,37 @@ def _loop(repo, rep):
               "R06.4", site, "an escaped candidate is skipped by one "
               "character and scanning continues", construct="skip-escaped",
               where=wh)
+    # the literal kept for an empty ${} is the text of the candidate that
+    # finally validated: m.group() taken inside the shrink loop, after the
+    # last re-search -- not the longest candidate
+    inner = [n for n in ast.walk(g.node) if isinstance(n, ast.While)
+             and src(n.test) == "True"]
+    okl = False
+    detail = ""
+    if inner:
+        for n in ast.walk(inner[0]):
+            if isinstance(n, ast.Call) and src(n.func) == "ast.Constant" \
+                    and len(n.args) == 1:
+                a0 = n.args[0]
+                val = a0
+                if isinstance(a0, ast.Name):
+                    defs = [x for x in ast.walk(g.node)
+                            if isinstance(x, ast.Assign) and any(
+                                isinstance(t_, ast.Name) and t_.id == a0.id
+                                for t_ in x.targets)]
+                    inside = [x for x in defs if any(
+                        y is x for y in ast.walk(inner[0]))]
+                    if len(defs) == 1 and inside:
+                        val = defs[0].value
+                    else:
+                        detail = "%s defined outside the shrink loop" % a0.id
+                        continue
+                if src(val) == "m.group()":
+                    okl = True
+    rep.check(okl, "R06.4", site, "an empty ${} is kept as the text of the "
+              "candidate that was finally accepted (m.group() inside the "
+              "shrink loop)", construct="empty-literal", where=wh,
+              detail=detail)
     # no-match exit un-doubles the tail and ends
     rep.check("if m is None: text = text.replace('$$', '$') "
               "nodes.append(ast.Constant(text)) break" in t, "R06.4", site,
